@@ -780,10 +780,15 @@ theorem cdfMBt_eq (T : Fn) (x a : Rat) : cdfMBt T x a = cdfMB T x a := by
       have e3 : T.sqrt (2 / T.pi) * (x / a) = T.sqrt (2 / T.pi) * x / a := by field_simp
       rw [e1, e2, e3]
 
-theorem kdeAutoBandwidth_pos (r xMin xMax : Rat) (h : xMin < xMax) : 0 < kdeAutoBandwidth r xMin xMax := by
+theorem kdeAutoBandwidth_pos (r xMin xMax : Rat) (h : xMin < xMax) :
+    0 < kdeAutoBandwidth r xMin xMax ∧ (xMax - xMin) / 149 / 64 < kdeAutoBandwidth r xMin xMax := by
   unfold kdeAutoBandwidth
-  by_cases hr : r > 0
-  · rw [if_neg (not_not.mpr hr)]; exact hr
-  · rw [if_pos hr]; exact div_pos (by linarith) (by norm_num)
+  have hs : 0 < (xMax - xMin) / 149 := div_pos (by linarith) (by norm_num)
+  simp only
+  by_cases hr : r > (xMax - xMin) / 149 / 64
+  · rw [if_neg (not_not.mpr hr)]
+    exact ⟨lt_trans (div_pos hs (by norm_num)) hr, hr⟩
+  · rw [if_pos hr]
+    exact ⟨hs, by linarith [div_lt_self hs (by norm_num : (1 : Rat) < 64)]⟩
 
 end Lp.C07
